@@ -16,7 +16,7 @@ def main(c):
     rnd = random.Random(c.seed)
     exe = g.build(c, "accel")
     model_checks(c)
-    lines = g.aes_lines(rnd, c.pick(400, 10000)) + g.ctr_lines(rnd, c.pick(1200, 30000), c.pick(6, 40))
+    lines = g.aesfresh_lines(rnd) + g.aes_lines(rnd, c.pick(400, 10000)) + g.ctr_lines(rnd, c.pick(1200, 30000), c.pick(6, 40))
     c.cov["calls"] = len(lines)
     g.run(c, exe, lines, "aes")
     c.cov["rule"] = ("AES-128/256 single blocks (zero, all-ones, random keys and blocks); AES-CTR streams of length 0..512 cut at and around 16-byte boundaries with "
